@@ -77,3 +77,13 @@ def derivableWith (cmp : Label → Label → Bool) (supplied : List Label) (conv
   (List.range (convs.length + 1)).foldl (fun D _ => derivStepWith cmp convs D) supplied
 
 end ArgMapper
+
+namespace ArgMapper
+
+/-- the lookup maps of a value set are consistent with its value list (true of every set
+`newValueSetFromStruct` builds): every entry is keyed by what it holds and holds a member of the list -/
+def ValueSet.KeysOK (vs : ValueSet) : Prop :=
+  (∀ p ∈ vs.named, p.2 ∈ vs.values ∧ p.1 = p.2.lab.name ∧ p.1 ≠ "") ∧
+  (∀ p ∈ vs.typed, p.2 ∈ vs.values ∧ p.1 = p.2.lab.ty ∧ p.2.lab.name = "")
+
+end ArgMapper
